@@ -1,32 +1,5 @@
-"""Texts of the manifest entries (level claimed, note, technique) per property."""
-from props_table import PROPS
-
-META = {
-    "C01": {
-        "text": "Conservation is a Lean theorem over a VM model that quantifies over every call tree (any actors, any nesting, any rolled-back or tolerated failing sub-call): the sum of balances is unchanged by a message; balances never go negative; a failed message changes nothing. Solvency theorems: miner (ledger model, every reachable state), payment channel (C16 inv_owed), reward payout <= balance. Tied to the code by replaying every invocation tree of a chain run on the real actors (miners, power, reward, cron, market) through the Lean model and comparing balances, with monitors for the total and for each solvency inequality after every message and tick, including fault-injected tolerated sends.",
-        "design_ref": "DESIGN.md §7 C01/C03/C05",
-        "note": "Trusted: Lean kernel; harness VM in place of ref-fvm; the market-solvency theorem is part of C06's model (here monitored on the real state); ledger model covers the funds paths listed in the evidence, the rest by oracle only.",
-        "technique": "Lean 4 conservation theorem over all call trees + solvency invariants; trace-replay correspondence",
-    },
-    "C03": {
-        "text": "Lean invariant (Good) over a ledger model of the miner's funds paths and its pledge-total notifications, proved for every reachable state by induction over operation histories: pcd = sum of outstanding pre-commit deposits, ip = sum of held sector pledges, solvency, non-negativity, and network total = ip + lf - unaccounted creation deposit (network_pledge_eq_partial), with kernel-checked witnesses that the unqualified equality and the 'never blocks a valid operation' clause FAIL on the code as it is (finding F1). Tied to the code by mirroring every funds-relevant real operation of a chain run on the model (balances, ledgers, burn, payout, change of the power actor's total) and by an independent oracle recomputing each ledger from sectors / pre-commits / vesting table.",
-        "design_ref": "DESIGN.md §7 C01/C03/C05, §8 F1",
-        "note": "F1 is reported as KNOWN-FINDING (creation deposit not in the network pledge total; pledge-total underflow blocks operations on a young network). locked_funds = sum of the vesting table is checked by the oracle here and proved in C14's vesting model. Amounts produced by fee/pledge formulas are inputs.",
-        "technique": "Lean 4 ledger invariants by induction over histories + differential mirroring of real miner operations",
-    },
-    "C05": {
-        "text": "Lean theorems over the scheduling model: the cron actor's tick is total; quantize_down/deadline arithmetic is characterised for all integers (truncating division included); deadline_tracks_epoch (after a callback at the last epoch of its window the recorded deadline is the one containing the next epoch, across period wrap); next callback exactly one window later; activation preserves 'exactly one pending proving-deadline event per active miner'; balance invariants never broken (from the ledger model). F3 and F1 witnesses are proved/replayed. Tied to the code by recomputing every real activation and every real proving-deadline callback of a chain run (new period start, deadline index, next event epoch in the power queue) with the model, and by monitors on every tick: all sub-invocations succeed, no claim lost, one pending event, recorded deadline contains next epoch, expirations and early terminations processed.",
-        "design_ref": "DESIGN.md §7 C01/C03/C05, §8 F1/F3",
-        "note": "F1 (callback fails on pledge-total underflow, claim lost) and F3 (no callback / stale deadline record between creation and first pre-commit) are KNOWN-FINDINGs. 'Every callback succeeds' is proved only for the modelled funds/scheduling logic; sector bookkeeping inside the callback is C02/C04's model; container/serialisation failures are outside the model.",
-        "technique": "Lean 4 arithmetic + invariant proofs for the cron schedule; differential recomputation of real callbacks; tick monitors with fault injection",
-    },
-    "C16": {
-        "text": "Lean 4 theorems over a model of the paych actor that follows the Rust control flow: acceptance soundness (update_sound), exact owed delta, lane-nonce monotonicity and no_replay over arbitrary later histories, 0 <= owed <= balance in every reachable state (inv_owed), settlement height only extends, collect_exact and collect_after_delay (>= settle epoch + 1440). The model is tied to the code on every run by differential execution of generated voucher/settle/collect histories on the real actor in the harness VM against the compiled model, with an independent oracle evaluating the property on the real state.",
-        "design_ref": "DESIGN.md §7 C16",
-        "note": "Trusted: Lean kernel (axioms propext, Classical.choice, Quot.sound only), the hand-written model's tie to the code is differential (bounded by generator coverage reported in evidence), harness VM in place of ref-fvm, signature/hash/extra-call results as environment inputs. Completeness direction of acceptance (conditions => accept) is not yet a theorem.",
-        "technique": "Lean 4 invariant/decision-logic proofs + differential correspondence of model and real actor",
-    },
-}
+"""Texts of the manifest entries (level claimed, note, technique) per property — see tools/props/."""
+from props_table import PROPS, META  # noqa: F401
 
 ALL = ["C%02d" % i for i in range(1, 21)]
 NOT_APPLICABLE = [
